@@ -264,6 +264,7 @@ def pbf_rules(ck, P, rule="R-PBF"):
             last = m["arms"][-1]
             ck.check(ir.diverges(last["body"]) or ir.contains(last["body"], lambda y: y.get("k") == "ret"), rule, msg + "|unknown-field",
                      "unknown (field, wire) combinations are rejected", "unknown fields fall through silently", ir.loc(m))
+    zigzag_rules(ck, P, rule)
     # defaults
     rd = [b for b in P.bodies if b["q"].endswith("vector_tile::layer::VectorTileLayer::read")]
     wr = [b for b in P.bodies if b["q"].endswith("vector_tile::layer::VectorTileLayer::to_blob")]
@@ -285,6 +286,29 @@ def pbf_rules(ck, P, rule="R-PBF"):
             loops = [n for n in ir.walk_nodes(b[0]["body"]) if n.get("k") == "for" and ir.place_str(n["iter"]).startswith(fld)]
             ck.check(bool(loops) and ir.place_str(loops[0]["iter"]) in (fld + ".iter()", fld), rule, q.rsplit("::", 2)[-2] + "|order", "%s are written in stored order" % fld.split(".")[1],
                      "%s are not written in stored order" % fld, ir.loc(b[0]))
+
+
+def zigzag_rules(ck, P, rule="R-PBF"):
+    """sint64 (zigzag): decode = (n >>> 1) ^ -(n & 1) with a LOGICAL shift of the unsigned varint; encode = (v << 1) ^ (v >> 63)
+    with an ARITHMETIC shift of the signed value.  Rust picks the shift kind from the operand type, so the rule is on types."""
+    rd = [b for b in P.bodies if b["q"].endswith("io::value_reader::ValueReader::read_svarint")]
+    wr = [b for b in P.bodies if b["q"].endswith("io::value_writer::ValueWriter::write_svarint")]
+    if not ck.anchor(rule, "zigzag codec (read_svarint / write_svarint)", rd + wr, 2):
+        return
+
+    def shifts(b, op):
+        return [n for n in ir.walk_nodes(b["body"]) if n.get("k") == "bin" and n.get("op") == op]
+    r = shifts(rd[0], ">>")
+    ok = len(r) == 1 and ir.strip(r[0]["l"]).get("t") == "u64" and ir.const_eval(r[0]["r"], {}) == 1
+    x = [n for n in ir.walk_nodes(rd[0]["body"]) if n.get("k") == "bin" and n.get("op") == "^"]
+    neg = [n for n in ir.walk_nodes(rd[0]["body"]) if n.get("k") == "un" and n.get("op") == "-" and ir.contains(n, lambda y: y.get("k") == "bin" and y.get("op") == "&" and ir.const_eval(y["r"], {}) == 1)]
+    ck.check(ok and len(x) == 1 and len(neg) == 1, rule, "zigzag|decode", "sint64 decode is (n >> 1) ^ -(n & 1) with the shift applied to the unsigned varint (logical shift)",
+             "sint64 decode shifts a value of type %s: an arithmetic shift sign-extends encoded values >= 2^63, so |v| >= 2^62 decodes to the wrong number" %
+             (ir.strip(r[0]["l"]).get("t") if r else "?"), ir.loc(r[0]) if r else ir.loc(rd[0]))
+    w = shifts(wr[0], ">>")
+    l = shifts(wr[0], "<<")
+    okw = len(w) == 1 and ir.strip(w[0]["l"]).get("t") == "i64" and ir.const_eval(w[0]["r"], {}) == 63 and len(l) == 1 and ir.const_eval(l[0]["r"], {}) == 1
+    ck.check(okw, rule, "zigzag|encode", "sint64 encode is (v << 1) ^ (v >> 63) with an arithmetic shift of the signed value", "sint64 encode is not (v << 1) ^ (v >> 63) on i64", ir.loc(wr[0]))
 
 
 def feature_write_rule(ck, P, rule="R-FEATURE-WRITE"):
